@@ -27,8 +27,10 @@ def _install():
         orig = getattr(cls, name)
 
         def wrapper(self, can_id, data, timestamp):
-            nid, gen = REG.get(id(self), (0, 0))
-            CALLS.append([[1, nid, gen, role_of(self)], can_id, B(data), timestamp])
+            reg = REG.get(id(self), (0, 0))
+            nid, gen = reg[0], reg[1]
+            role = reg[2] if len(reg) > 2 else role_of(self)
+            CALLS.append([[1, nid, gen, role], can_id, B(data), timestamp])
             return orig(self, can_id, data, timestamp)
         wrapper.__name__ = name
         setattr(cls, name, wrapper)
@@ -82,7 +84,10 @@ def run_case(case: dict) -> dict:
         if owner is net.lss:
             return [2, 0, 0, 0]
         if owner is not None and id(owner) in REG:
-            nid, gen = REG[id(owner)]
+            reg = REG[id(owner)]
+            nid, gen = reg[0], reg[1]
+            if len(reg) > 2:
+                return [1, nid, gen, reg[2]]
             if name == "on_command":
                 from canopen.nmt import NmtSlave
                 return [1, nid, gen, 6 if isinstance(owner, NmtSlave) else 4]
@@ -127,6 +132,8 @@ def run_case(case: dict) -> dict:
                 if op["kind"] == "remote":
                     node = canopen.RemoteNode(nid, od)
                     REG[id(node.sdo)] = REG[id(node.nmt)] = REG[id(node.emcy)] = (nid, g)
+                    for k, tx in enumerate(op.get("extra", []), 1):   # channels added before the node joins the network
+                        REG[id(node.add_sdo(tx + 0x80, tx))] = (nid, g, 10 + k)
                 else:
                     node = canopen.LocalNode(nid, od)
                     REG[id(node.sdo)] = REG[id(node.nmt)] = (nid, g)
@@ -141,7 +148,18 @@ def run_case(case: dict) -> dict:
                     cur_gen[nid] = g
                 except Exception:  # noqa
                     raised = True
-                log({"e": "add", "kind": op["kind"], "nid": nid, "gen": g}, raised)
+                log({"e": "add", "kind": op["kind"], "nid": nid, "gen": g,
+                     "extra": list(op.get("extra", [])) if op["kind"] == "remote" else []}, raised)
+            elif o == "addsdo":
+                node = net.nodes.get(op["nid"])
+                if node is None or not isinstance(node, canopen.RemoteNode):
+                    continue
+                try:
+                    client = node.add_sdo(op["tx"] + 0x80, op["tx"])
+                    REG[id(client)] = (op["nid"], cur_gen[op["nid"]], 9 + len(node.sdo_channels))
+                except Exception:  # noqa
+                    raised = True
+                log({"e": "addsdo", "nid": op["nid"], "tx": op["tx"]}, raised)
             elif o == "remove":
                 if op["nid"] not in net.nodes:
                     continue
